@@ -268,7 +268,8 @@ class BaseNode:
                 window=info.window,
                 skip=info.skip,
                 jitter=info.jitter,
-                name=input_name,
+                # NodeInfo.inputs is keyed by the name of the output node; the (shadow) input name is stored in the info
+                name=info.name if isinstance(info.name, str) else input_name,
             )
 
     @property
